@@ -875,3 +875,21 @@ filter:
     rule_collection.apply_filters([sigma_filter_1, sigma_filter_2])
     result = test_backend.convert(rule_collection)
     assert result == ['EventID=4625 and not User startswith "adm_" and not User startswith "srv_"']
+
+
+@pytest.mark.parametrize("name", ["1st_filter", "_internal", "-dash", "4"])
+def test_filter_identifier_not_starting_with_letter(test_backend, name):
+    """Filter detection identifiers may start with a digit, '_' or '-' like rule identifiers."""
+    sigma_filter = SigmaFilter.from_yaml(f"""
+title: Filter with identifier that does not start with a letter
+{_FILTER_LOGSOURCE}
+filter:
+{_FILTER_RULES}
+  "{name}":
+      User|startswith: 'adm_'
+  condition: not {name}
+""")
+    rule_collection = SigmaCollection.from_yaml(_RULE_YAML)
+    rule_collection.apply_filters([sigma_filter])
+    result = test_backend.convert(rule_collection)
+    assert result == ['EventID=4625 and not User startswith "adm_"']
